@@ -525,10 +525,12 @@ def run(tier):
     nschemas = 150 if quick else 900
     specs = []
     for i in range(nschemas):
-        spec = G.gen_spec(rng, size=rng.randint(1, 3), adversarial=i % 3 != 0, override_specified=i % 4 == 1)
+        spec = G.gen_spec(rng, size=rng.randint(1, 3), adversarial=i % 3 != 0, override_specified=i % 4 == 1,
+                          incremental=i % 5 == 2)
         mode = "sdl" if i % 2 == 0 else "prog"
         try:
-            s = build_schema(G.spec_to_sdl(spec)) if mode == "sdl" else G.spec_to_schema(spec, rng)
+            s = (build_schema(G.spec_to_sdl(spec)) if mode == "sdl"
+                 else G.spec_to_schema(spec, rng, subclasses=i % 6 == 1))
             if validate_schema(s):
                 raise ValueError("invalid")
         except Exception:  # noqa: BLE001
